@@ -56,6 +56,12 @@ SUITES = {
         functions=["cbh_storage::keys::{validate_key,is_plain_segment}", "std::path::Path::components (real)"],
         stubs=["alloc::fmt::format -> String::new() on the error-message path"], replay_bin="kani/cbh_storage/replay",
     ),
+    "events_local": dict(
+        kind="ext", dir="kani/events_local", sources=["kani/events_local/src/lib.rs"],
+        functions=["events::LocalAutoResetEvent::{boxed,set,try_wait,wait}", "events::LocalManualResetEvent::{boxed,set,reset,try_wait,wait}",
+                   "Local*WaitFuture::{poll,drop}", "local_auto::Inner::{set,try_wait,poll_wait,drop_wait}", "local_manual::Inner::{set,reset,try_wait,poll_wait,drop_wait}"],
+        stubs=[], replay_bin="kani/events_local",
+    ),
     "infinity_pool": dict(
         kind="incrate", package="infinity_pool", prefix="folo_verif::",
         sources=["kani/infinity_pool/harness.rs"],
